@@ -84,6 +84,9 @@ def report(ctx, prop, cid, script, impl, model, e, oracle_problem, sig_class):
     if oracle_problem:
         ctx.violation("%s:%s" % (prop, sig_class), oracle_problem,
                       {"suite": "pat", "script": pat_suite.script_text(script), "ast": _jsonable(script), "impl": impl, "model": model})
+    elif mm and pat_suite.inexact_at_discontinuity(script):
+        # the exact-rational model stands for float arithmetic only away from discontinuities (DESIGN 8.4)
+        ctx.count("not-compared:inexact-float-at-discontinuity")
     elif mm:
         ctx.disagreement("case %s [%s]: line %d impl %r vs model %r" % (cid, sig_class, mm[0], mm[1][:200], mm[2][:200]),
                          {"suite": "pat", "script": pat_suite.script_text(script), "ast": _jsonable(script), "impl": impl, "model": model})
